@@ -39,7 +39,7 @@ func drawC06(t *rapid.T) *dScenario {
 	k.BigPodPct = 8
 	// profile: several empty nodes, and a pod lands on one of them while Emptiness waits to validate its command; only
 	// the emptiness clause is judged for those steps (it is stated for the nodes as they are when they are deleted)
-	lateBind := dpct(t, 25, "emptinessLateBindProfile")
+	lateBind := dpct(t, 15, "emptinessLateBindProfile")
 	if lateBind {
 		k.EmptyNodePct = 55
 		k.MidWaitPct = 80
@@ -328,7 +328,7 @@ func execC06(s *dScenario, c *ev.Ctx) {
 
 var propC06 = ev.Prop[dScenario]{
 	ID: "C06", Test: "TestC06",
-	Rule: "rapid draws a disruption world biased to consolidatable clusters (2-8 initialized nodes with small workload pods over priced catalogs with ties, inversions, unavailable offerings, spot / on-demand mixes, 25% catalogs with >= 18 types for spot-to-spot, minValues, SpotToSpotConsolidation on/off, WhenEmpty / WhenEmptyOrUnderutilized / Balanced) and a history of 1-4 steps; in a 25% profile more than half of the nodes are empty and a pod lands on a node while Emptiness waits to validate its command (only clause 6 is judged for those steps); the REAL disruption controller runs; every command of Emptiness, multi-node and single-node consolidation is judged the moment the method returns it; " +
+	Rule: "rapid draws a disruption world biased to consolidatable clusters (2-8 initialized nodes with small workload pods over priced catalogs with ties, inversions, unavailable offerings, spot / on-demand mixes, 25% catalogs with >= 18 types for spot-to-spot, minValues, SpotToSpotConsolidation on/off, WhenEmpty / WhenEmptyOrUnderutilized / Balanced) and a history of 1-4 steps; in a 15% profile more than half of the nodes are empty and a pod lands on a node while Emptiness waits to validate its command (only clause 6 is judged for those steps); the REAL disruption controller runs; every command of Emptiness, multi-node and single-node consolidation is judged the moment the method returns it; " +
 		"oracle: (1) every reschedulable pod on a candidate is placed in the command's results, no candidate pod is in PodErrors, at most one replacement, destinations are initialized nodes that are neither candidates nor being removed, and every placement passes the independent admission oracle of C01 on the API state of that instant; (2) for every instance type the replacement may launch, the worst available compatible offering price within the capacity type that launches first (reserved > spot > on-demand, offerings judged on the harness catalog) is strictly below the sum of the candidates' offering prices; (3) if a candidate is not spot no launchable on-demand offering costs as much or more; (4) spot-to-spot needs the gate and, for one candidate, >= 15 options; (5) strict minValues of the pool hold for the final option list; (6) Emptiness only deletes nodes without a reschedulable pod of positive eviction cost; " +
 		"non-trivial = a replace command, or a delete command that moves at least one pod",
 	Assumptions: []string{"outside the emptiness profile no third-party change happens while the controller waits to validate (the command's recorded placements are a witness only for the world they were computed in)", "prices come from the harness catalog (no NodeOverlay)"},
